@@ -8,20 +8,19 @@ import BluetoeModel.Bootloader.Lemmas
   specified with the announced checksum chain."  — over all control point / data write sequences
   (any opcode, length, address, data size) × page sizes × region lists.
 
-  The theorems are about the code with `fixes/boot-01-read-procedure-length-check.patch` and
-  `fixes/boot-02-flash-only-white-listed-pages.patch` applied. What is proved:
+  The theorems are about the code with `fixes/boot-01-read-procedure-length-check.patch`,
+  `fixes/boot-02-flash-only-white-listed-pages.patch` and
+  `fixes/boot-03-new-procedure-leaves-flash-mode.patch` applied. This file: clauses 1 and 2,
 
-  * `flash_effects_inside_regions` (full strength, every history, page size and region list):
-    everything the bootloader flashes (`start_flash`), reads back (`read_mem`) and checksums
-    (`public_checksum32`) lies entirely inside one white-listed region;
-  * `control_point_reads_le_size` (full strength): `read_address` never reads behind the value;
-  * `effects_inside_regions_partial`: the Read procedure's `public_read_mem` calls are inside the
-    white list too, for every history that contains no `Hazard` step;
-  * `effects_inside_regions_witness`: with a `Hazard` step they are not (known finding): a data
-    write that arrives in flash mode while a Read procedure is the current control point procedure
-    advances the `start_address` the Read procedure reads from.
-  Not proved here (checked by the correspondence only): the third clause (data lands at the client's
-  addresses with the announced checksum chain).
+  * `effects_inside_regions` (full strength, every history, page size and region list): everything
+    the bootloader flashes (`start_flash`), reads back (`read_mem`), checksums
+    (`public_checksum32`) and reads for the Read procedure (`public_read_mem`) lies entirely inside
+    one white-listed region (`flash_effects_inside_regions` is the sub-statement without the Read
+    procedure, which also holds without fix boot-03);
+  * `control_point_reads_le_size` (full strength): `read_address` never reads behind the value.
+
+  Clause 3 (data lands at the client's addresses with the announced checksum chain):
+  `PropsLayout.lean`.
 -/
 namespace BluetoeModel.Bootloader
 
@@ -30,106 +29,107 @@ inductive Reach (cfg : Cfg) : Sys → Prop where
   | init : Reach cfg Sys.init
   | step {s} (op : Op) : Reach cfg s → Reach cfg (step cfg s op).1
 
-/-- The excluded input: a non-empty data write that arrives while flash mode is on **and** the
-    last control point write was an accepted Read procedure (opcode 8). -/
-def Hazard (s : Sys) : Op → Prop
-  | .data v => s.ctl.opcode = 8 ∧ s.ctl.inFlash = true ∧ v ≠ []
-  | _ => False
-
-/-- histories without a `Hazard` step -/
-inductive ReachSafe (cfg : Cfg) : Sys → Prop where
-  | init : ReachSafe cfg Sys.init
-  | step {s} (op : Op) : ReachSafe cfg s → ¬ Hazard s op → ReachSafe cfg (step cfg s op).1
-
 theorem ctlOK_init (cfg : Cfg) : CtlOK cfg Sys.init.ctl := ⟨.inl rfl, .inl rfl⟩
 
 theorem readOK_init (cfg : Cfg) : ReadOK cfg Sys.init.ctl := fun h => absurd h (by decide)
 
+theorem readMode_init : ReadMode Sys.init.ctl := fun h => absurd h (by decide)
+
 /-- one step from a state with fine buffers: buffers stay fine, the control point value is not
     over-read, every effect is inside the white list — given `ReadOK`, which the step preserves
-    unless it is a `Hazard` -/
+    when the Read procedure is not current in flash mode (`ReadMode`, established by fix boot-03) -/
 theorem step_inv {cfg : Cfg} (wf : cfg.WF) (s : Sys) (h : CtlOK cfg s.ctl) (op : Op) :
     CtlOK cfg (step cfg s op).1.ctl ∧ (step cfg s op).2.oob = false ∧
     (ReadOK cfg s.ctl → AllInside cfg (step cfg s op).2.effs) ∧
-    (ReadOK cfg s.ctl → ¬ Hazard s op → ReadOK cfg (step cfg s op).1.ctl) ∧
-    (∀ e ∈ (step cfg s op).2.effs, e.flashInside cfg) := by
+    (ReadOK cfg s.ctl → ReadMode s.ctl → ReadOK cfg (step cfg s op).1.ctl) ∧
+    (∀ e ∈ (step cfg s op).2.effs, e.flashInside cfg) ∧
+    (ReadMode s.ctl → ReadMode (step cfg s op).1.ctl) := by
   cases op with
   | ctrl v =>
     have hw := ctrlWrite_ok wf h v
+    have hm := ctrlWrite_readMode cfg s.ctl v
     simp only [step]
-    generalize ctrlWrite cfg s.ctl v = res at hw
+    generalize ctrlWrite cfg s.ctl v = res at hw hm
     cases res with
     | oob => exact absurd hw (fun x => x)
     | done c code n d effs =>
-      exact ⟨hw.1, (by first | rfl | trivial), fun _ => hw.2.2, fun hr _ => hw.2.1 hr, fun e he => Effect.inside_flashInside (hw.2.2 e he)⟩
+      exact ⟨hw.1, (by first | rfl | trivial), fun _ => hw.2.2, fun hr _ => hw.2.1 hr,
+        fun e he => Effect.inside_flashInside (hw.2.2 e he), fun hrm => hm hrm c rfl⟩
   | data v =>
     have hd := dataWrite_ok wf s.ctl v h
     simp only [step]
-    refine ⟨hd.ctl, (by first | rfl | trivial), fun _ => hd.effs, ?_, fun e he => Effect.inside_flashInside (hd.effs e he)⟩
-    intro hr hz
+    have hmode : ReadMode s.ctl → ReadMode (dataWrite cfg s.ctl v).1 := by
+      intro hrm
+      by_cases h8 : s.ctl.opcode = 8
+      · rw [dataWrite_noop cfg s.ctl v (.inl (hrm h8))]; exact hrm
+      · exact readMode_of_ne (by rw [hd.opcode]; exact h8)
+    refine ⟨hd.ctl, (by first | rfl | trivial), fun _ => hd.effs, ?_,
+      fun e he => Effect.inside_flashInside (hd.effs e he), hmode⟩
+    intro hr hrm
     by_cases h8 : s.ctl.opcode = 8
-    · have hno : s.ctl.inFlash = false ∨ v = [] := by
-        by_cases hf : s.ctl.inFlash = true
-        · by_cases hv : v = []
-          · exact .inr hv
-          · exact absurd ⟨h8, hf, hv⟩ hz
-        · exact .inl (by simpa using hf)
-      show ReadOK cfg (dataWrite cfg s.ctl v).1
-      rw [dataWrite_noop cfg s.ctl v hno]; exact hr
+    · show ReadOK cfg (dataWrite cfg s.ctl v).1
+      rw [dataWrite_noop cfg s.ctl v (.inl (hrm h8))]; exact hr
     · intro h8'
       exact absurd (hd.opcode ▸ h8') h8
   | endflash =>
-    exact ⟨h, (by first | rfl | trivial), fun _ => AllInside.nil, fun hr _ => hr, fun e he => by cases he⟩
+    exact ⟨h, (by first | rfl | trivial), fun _ => AllInside.nil, fun hr _ => hr, (fun e he => by cases he), id⟩
   | output =>
     have hq := dequeue_ctl s
     simp only [step]
     generalize dequeue s = d at hq
     obtain ⟨s1, i⟩ := d
-    have h1 : CtlOK cfg s1.ctl := by rw [show s1.ctl = s.ctl from hq]; exact h
-    have hr1 : ReadOK cfg s.ctl → ReadOK cfg s1.ctl := by rw [show s1.ctl = s.ctl from hq]; exact id
+    have e1 : s1.ctl = s.ctl := hq
+    have h1 : CtlOK cfg s1.ctl := by rw [e1]; exact h
+    have hr1 : ReadOK cfg s.ctl → ReadOK cfg s1.ctl := by rw [e1]; exact id
+    have hm1 : ReadMode s.ctl → ReadMode s1.ctl := by rw [e1]; exact id
     match i with
-    | none => exact ⟨h1, (by first | rfl | trivial), fun _ => AllInside.nil, fun hr _ => hr1 hr, fun e he => by cases he⟩
-    | some 0 => exact ⟨h1, (by first | rfl | trivial), fun _ => AllInside.nil, fun hr _ => hr1 hr, fun e he => by cases he⟩
+    | none => exact ⟨h1, (by first | rfl | trivial), fun _ => AllInside.nil, fun hr _ => hr1 hr, (fun e he => by cases he), hm1⟩
+    | some 0 => exact ⟨h1, (by first | rfl | trivial), fun _ => AllInside.nil, fun hr _ => hr1 hr, (fun e he => by cases he), hm1⟩
     | some 1 =>
       exact ⟨readData_ctlOK s1.ctl h1, (by first | rfl | trivial), fun hr => (readData_ok wf s1.ctl h1 (hr1 hr)).2.2,
-        fun hr _ => (readData_ok wf s1.ctl h1 (hr1 hr)).2.1, readData_flashInside s1.ctl⟩
+        fun hr _ => (readData_ok wf s1.ctl h1 (hr1 hr)).2.1, readData_flashInside s1.ctl,
+        fun hrm => readData_readMode s1.ctl (hm1 hrm)⟩
     | some (n + 2) =>
       exact ⟨progressData_ctlOK s1.ctl h1, (by first | rfl | trivial), fun _ => AllInside.nil,
-        fun hr _ => progressData_readOK s1.ctl (hr1 hr), fun e he => by cases he⟩
+        fun hr _ => progressData_readOK s1.ctl (hr1 hr), (fun e he => by cases he),
+        fun hrm => progressData_readMode s1.ctl (hm1 hrm)⟩
 
 theorem Reach.ctlOK {cfg : Cfg} (wf : cfg.WF) {s : Sys} (r : Reach cfg s) : CtlOK cfg s.ctl := by
   induction r with
   | init => exact ctlOK_init cfg
   | step op _ ih => exact (step_inv wf _ ih op).1
 
-theorem ReachSafe.inv {cfg : Cfg} (wf : cfg.WF) {s : Sys} (r : ReachSafe cfg s) :
-    CtlOK cfg s.ctl ∧ ReadOK cfg s.ctl := by
+/-- invariant of every history: buffers on white-listed pages, the Read procedure's range inside one
+    region, the Read procedure never current in flash mode -/
+theorem Reach.inv {cfg : Cfg} (wf : cfg.WF) {s : Sys} (r : Reach cfg s) :
+    CtlOK cfg s.ctl ∧ ReadOK cfg s.ctl ∧ ReadMode s.ctl := by
   induction r with
-  | init => exact ⟨ctlOK_init cfg, readOK_init cfg⟩
-  | step op _ hz ih => exact ⟨(step_inv wf _ ih.1 op).1, (step_inv wf _ ih.1 op).2.2.2.1 ih.2 hz⟩
+  | init => exact ⟨ctlOK_init cfg, readOK_init cfg, readMode_init⟩
+  | step op _ ih =>
+    have h := step_inv wf _ ih.1 op
+    exact ⟨h.1, h.2.2.2.1 ih.2.1 ih.2.2, h.2.2.2.2.2 ih.2.2⟩
 
 /-! ## "flashes, reads back and checksums only memory that lies entirely inside its white-listed
     regions" -/
 
-/-- Full strength: for every configuration, after every history, whatever the next operation is,
-    every `start_flash`, `read_mem` and `public_checksum32` call of that operation touches only
-    memory that lies entirely inside one white-listed region. -/
+/-- **Full strength**: for every configuration, after every history, whatever the next operation
+    is, every `start_flash`, `read_mem`, `public_checksum32` and `public_read_mem` call of that
+    operation touches only memory that lies entirely inside one white-listed region. -/
+theorem effects_inside_regions {cfg : Cfg} (wf : cfg.WF) {s : Sys} (r : Reach cfg s) (op : Op) :
+    AllInside cfg (step cfg s op).2.effs :=
+  (step_inv wf s (r.inv wf).1 op).2.2.1 (r.inv wf).2.1
+
+/-- The sub-statement about flashing, reading back and checksumming (it does not depend on fix
+    boot-03). -/
 theorem flash_effects_inside_regions {cfg : Cfg} (wf : cfg.WF) {s : Sys} (r : Reach cfg s) (op : Op) :
     ∀ e ∈ (step cfg s op).2.effs, e.flashInside cfg :=
-  (step_inv wf s (r.ctlOK wf) op).2.2.2.2
+  (step_inv wf s (r.ctlOK wf) op).2.2.2.2.1
 
-example : (⟨16, [(0x1008, 0x1020)]⟩ : Cfg).WF := ⟨by decide, by intro r hr; simp at hr; subst hr; decide⟩
+/-- non-vacuity: a well-formed configuration whose region is not page aligned -/
+example : (⟨16, [(0x1008, 0x1020)]⟩ : Cfg).WF :=
+  ⟨by decide, by intro r hr; simp at hr; subst hr; rw [W_eq]; decide⟩
 
-/-- The full statement including the Read procedure's `public_read_mem` calls … -/
-def effects_inside_regions_full : Prop :=
-  ∀ cfg : Cfg, cfg.WF → ∀ s, Reach cfg s → ∀ op, AllInside cfg (step cfg s op).2.effs
-
-/-- … holds for every history without a `Hazard` step … -/
-theorem effects_inside_regions_partial {cfg : Cfg} (wf : cfg.WF) {s : Sys} (r : ReachSafe cfg s) (op : Op) :
-    AllInside cfg (step cfg s op).2.effs :=
-  (step_inv wf s (r.inv wf).1 op).2.2.1 (r.inv wf).2
-
-/-- execution of a history, for the witness and the non-vacuity examples -/
+/-- execution of a history, for the non-vacuity examples -/
 def runOps (cfg : Cfg) (s : Sys) : List Op → Sys
   | [] => s
   | op :: ops => runOps cfg (step cfg s op).1 ops
@@ -142,29 +142,22 @@ theorem reach_runOps {cfg : Cfg} {s : Sys} (r : Reach cfg s) (ops : List Op) : R
 def cfg1 : Cfg := ⟨16, [(0x1000, 0x1040), (0x2000, 0x2020)]⟩
 
 theorem cfg1_wf : cfg1.WF :=
-  ⟨by decide, by intro r hr; simp [cfg1] at hr; rcases hr with hr | hr <;> (subst hr; decide)⟩
+  ⟨by decide, by intro r hr; simp [cfg1] at hr; rcases hr with hr | hr <;> (subst hr; rw [W_eq]; decide)⟩
 
-/-- Start Flash at 0x1000, Read procedure for [0x2010, 0x2018), 12 data bytes, one `l2cap_output`
-    (delivers the control point notification of Start Flash) -/
-def witnessOps : List Op :=
+/-- The input that broke the statement before fix boot-03 (Start Flash at 0x1000, Read procedure for
+    [0x2010, 0x2018), 12 data bytes, `l2cap_output`s): the data write is now refused
+    (`no_operation_in_progress`) and the Read procedure reads exactly [0x2010, 0x2018). -/
+def formerWitnessOps : List Op :=
   [.ctrl [3, 0x00, 0x10, 0, 0, 0, 0, 0, 0],
    .ctrl [8, 0x10, 0x20, 0, 0, 0, 0, 0, 0, 0x18, 0x20, 0, 0, 0, 0, 0, 0],
    .data [0, 1, 2, 3, 4, 5, 6, 7, 8, 9, 10, 11],
    .output]
 
-/-- … and fails with one: after Start Flash, an accepted Read of [0x2010, 0x2018) and 12 data
-    bytes, the next `l2cap_output` calls `public_read_mem( 0x201c, 20 )`, which leaves the white
-    list [0x1000,0x1040) ∪ [0x2000,0x2020). -/
-theorem effects_inside_regions_witness : ¬ effects_inside_regions_full := by
-  intro h
-  have hin := h cfg1 cfg1_wf _ (reach_runOps .init witnessOps) .output (.publicRead 0x201c 20) (by decide +kernel)
-  obtain ⟨r, hr, h1, h2⟩ := hin
-  simp [cfg1] at hr
-  rcases hr with hr | hr <;> (subst hr; simp at h1 h2)
+example : (step cfg1 (runOps cfg1 Sys.init (formerWitnessOps.take 2)) (.data [0, 1, 2, 3, 4, 5, 6, 7, 8, 9, 10, 11])).2.res
+    = some noOperationInProgress := by decide +kernel
 
-example : ReachSafe cfg1 (step cfg1 (step cfg1 Sys.init (.ctrl [3, 0x00, 0x10, 0, 0, 0, 0, 0, 0])).1
-    (.data [1, 2, 3])).1 :=
-  .step _ (.step _ .init (fun h => h)) (fun h => absurd h.1 (by decide))
+example : (step cfg1 (runOps cfg1 Sys.init formerWitnessOps) .output).2.effs = [.publicRead 0x2010 8] := by
+  decide +kernel
 
 /-! ## "never reads beyond the bytes of a written control point value" -/
 
